@@ -1,3 +1,4 @@
+use crate::interpreter::errors::RuntimeError;
 use crate::interpreter::FunctionMap;
 use crate::interpreter::Value;
 use crate::standard_library::io::input;
@@ -52,6 +53,27 @@ impl Modules {
     }
 }
 
+/// what the body of a native procedure needs in order to report a runtime error
+/// (bound by `std_function!(.. => fn NAME[ctx](..) {..})`)
+pub struct NativeContext<'a> {
+    pub file_path: String,
+    pub source: std::sync::Arc<str>,
+    pub spans: &'a [miette::SourceSpan],
+}
+
+impl NativeContext<'_> {
+    /// a runtime error labelled at argument number `arg` (counted from zero)
+    pub fn error(&self, arg: usize, message: &str, help: String, label: &str) -> RuntimeError {
+        RuntimeError {
+            named_source: miette::NamedSource::new(self.file_path.clone(), self.source.clone()),
+            span: self.spans[arg],
+            message: message.to_string(),
+            help,
+            label: label.to_string(),
+        }
+    }
+}
+
 fn std_core() -> FunctionMap {
     let mut functions = FunctionMap::new();
 
@@ -73,8 +95,17 @@ fn std_core() -> FunctionMap {
         Ok(Value::String(result))
     });
 
-    std_function!(functions => fn INSERT(list: Value::List, i: Value::Number, value: Value) {
-        // subtract one because indexed at one
+    std_function!(functions => fn INSERT[ctx](list: Value::List, i: Value::Number, value: Value) {
+        // indexed at one; inserting at LENGTH + 1 appends
+        let len = list.borrow().len();
+        if !(i >= 1.0 && i as usize <= len + 1) {
+            return Err(ctx.error(
+                1,
+                "Invalid List Index",
+                format!("Make sure index `{i}` is between 1 and {}", len + 1),
+                "Cannot INSERT at this index",
+            ));
+        }
         list.borrow_mut().insert(i as usize - 1, value.clone());
 
         return Ok(Value::Null)
@@ -86,8 +117,16 @@ fn std_core() -> FunctionMap {
         return Ok(Value::Null)
     });
 
-    std_function!(functions => fn REMOVE(list: Value::List, i: Value::Number) {
-        // todo instead of panic with default hook make this return a nice error
+    std_function!(functions => fn REMOVE[ctx](list: Value::List, i: Value::Number) {
+        let len = list.borrow().len();
+        if !(i >= 1.0 && i as usize <= len) {
+            return Err(ctx.error(
+                1,
+                "Invalid List Index",
+                format!("Make sure index `{i}` is between 1 and {len}"),
+                "Cannot REMOVE at this index",
+            ));
+        }
         let poped = list.borrow_mut().remove(i as usize - 1);
         return Ok(poped);
     });
